@@ -107,16 +107,18 @@ theorem padRow_get (row : V1 ℝ) (W dw j : ℕ) :
     ((Tensor.padRow row W dw)[j]?).getD 0 =
       if j < W ∧ dw ≤ j ∧ j - dw < row.length then (row[j - dw]?).getD 0 else 0 := by
   unfold Tensor.padRow
-  simp only [List.getElem?_map, List.getElem?_range, L.get?_eq, List.getElem?_take]
   by_cases hj : j < W
-  · by_cases hd : dw ≤ j
+  · have hr : (List.range W)[j]? = some j := List.getElem?_range hj
+    simp only [List.getElem?_map, hr, Option.map_some, Option.getD_some, L.get?_eq, List.getElem?_take]
+    by_cases hd : dw ≤ j
     · have h1 : j - dw < W := by omega
-      by_cases hr : j - dw < row.length
-      · simp [hj, hd, h1, hr]
+      by_cases hlen : j - dw < row.length
+      · simp [hj, hd, h1, hlen]
       · have : row[j - dw]? = none := List.getElem?_eq_none (by omega)
-        simp [hj, hd, h1, hr, this]
+        simp [hj, hd, h1, hlen, this]
     · simp [hj, hd]
-  · simp [hj]
+  · have hr : (List.range W)[j]? = none := List.getElem?_eq_none (by simp; omega)
+    simp [List.getElem?_map, hr, hj]
 
 /-- value of a padded channel -/
 theorem padChannel_get (ch : V2 ℝ) (H W dh dw i j : ℕ) :
@@ -124,20 +126,23 @@ theorem padChannel_get (ch : V2 ℝ) (H W dh dw i j : ℕ) :
       if i < H ∧ dh ≤ i ∧ i - dh < ch.length ∧ j < W ∧ dw ≤ j ∧ j - dw < ((ch[i - dh]?).getD []).length
       then ((((ch[i - dh]?).getD [])[j - dw]?).getD 0) else 0 := by
   unfold Tensor.padChannel
-  simp only [List.getElem?_map, List.getElem?_range, L.get?_eq, List.getElem?_take]
   by_cases hi : i < H
-  · by_cases hd : dh ≤ i
+  · have hr : (List.range H)[i]? = some i := List.getElem?_range hi
+    simp only [List.getElem?_map, hr, Option.map_some, Option.getD_some, L.get?_eq, List.getElem?_take]
+    by_cases hd : dh ≤ i
     · have h1 : i - dh < H := by omega
-      by_cases hr : i - dh < ch.length
-      · have hsome : ch[i - dh]? = some ch[i - dh] := List.getElem?_eq_getElem hr
-        simp only [hi, hd, h1, hr, hsome, if_true, Option.map_some, Option.getD_some, true_and]
+      by_cases hlen : i - dh < ch.length
+      · have hsome : ch[i - dh]? = some ch[i - dh] := List.getElem?_eq_getElem hlen
+        simp only [hd, h1, hsome, if_true, Option.getD_some]
         rw [padRow_get]
+        simp [hi, hd, hlen]
       · have hn : ch[i - dh]? = none := List.getElem?_eq_none (by omega)
-        simp only [hi, hd, h1, hr, hn, if_true, Option.map_some, Option.getD_some, false_and, and_false, if_false]
-        by_cases hj : j < W <;> simp [hj]
-    · simp only [hi, hd, if_true, Option.map_some, Option.getD_some, if_false, false_and, and_false]
-      by_cases hj : j < W <;> simp [hj]
-  · simp [hi]
+        simp only [hd, h1, hn, if_true]
+        by_cases hj : j < W <;> simp [hj, hlen]
+    · simp only [hd, if_false]
+      by_cases hj : j < W <;> simp [hj, hd]
+  · have hr : (List.range H)[i]? = none := List.getElem?_eq_none (by simp; omega)
+    simp [List.getElem?_map, hr, hi]
 
 /-- **zero padding**: the padded tensor holds the input shifted by `(p₀, p₁)` and zero elsewhere -/
 theorem pad3d_get (x : V3 ℝ) (c ih iw p0 p1 : ℕ) (hx : L.Dims3 x c ih iw) (hc : 0 < c) (hih : 0 < ih) :
@@ -183,7 +188,7 @@ theorem pad3d_get (x : V3 ℝ) (c ih iw p0 p1 : ℕ) (hx : L.Dims3 x c ih iw) (h
         · have : i < ih + 2 * p0 ∧ p0 ≤ i ∧ i - p0 < chan.length ∧ j < iw + 2 * p1 ∧ p1 ≤ j ∧
               j - p1 < ((chan[i - p0]?).getD []).length := by
             rw [hrow]; simp only [Option.getD_some, hlen]; omega
-          simp [this, h1, h2, hrow]
+          rw [if_pos this, if_pos ⟨h1.1, h1.2, h2.1, h2.2⟩, hrow]
         · have hn : ¬ (i < ih + 2 * p0 ∧ p0 ≤ i ∧ i - p0 < chan.length ∧ j < iw + 2 * p1 ∧ p1 ≤ j ∧
               j - p1 < ((chan[i - p0]?).getD []).length) := by
             rw [hrow]; simp only [Option.getD_some, hlen]; omega
